@@ -223,6 +223,9 @@ func main() {
 		add(n + "/..")
 		add(n + "/...")
 		add(n + "/..%20")
+		// a way out again behind the protected name (handlers that read the path as sent may stop at the name)
+		add(n + "/../../pub/p.txt")
+		add(n + "/../../nothing")
 	}
 	for _, t := range []string{"/", "/pub", "/pub/p.txt", "/pub2", "/r/s.txt", "/r/sub/deep.txt", "/r/../secret/s.txt", "/s", "/old", "/?archive=zip", "/?archive=tar.gz", "/pub/?archive=zip", "/home.html", "/nothing", "/secret?archive=zip", "/secret/?archive=tar.gz", "/secret/sub/?archive=zip", "/r/?archive=zip", "/r/", "/pub/../secret/", "/secret/sub/"} {
 		add(t)
